@@ -242,17 +242,83 @@ payload = z3.Function("payload", Blob.sort(), Val.sort())
 packv = z3.Function("packv", Request.sort(), Cache.sort(), Val.sort())
 result_raises = z3.Function("result_raises", SetK.sort(), z3.BoolSort())
 
+node_deps = z3.Function("node_deps", Node.sort(), SetK.sort())
+node_isdata = z3.Function("node_isdata", Node.sort(), z3.BoolSort())
+node_value = z3.Function("node_value", Node.sort(), Val.sort())
+
+# the graph handed to the scheduler, as seen through the node accessors (task-spec form)
+DSK = [
+    ("dsk-closed", "forall(lambda k: implies(k in dsk.keys(), node_deps(dsk[k]) <= dsk.keys()), Key)"),
+    ("dsk-isdata", "forall(lambda k: implies(k in dsk.keys(), isdata(k) == node_isdata(dsk[k])), Key)"),
+    ("dsk-data-nodes-have-no-dependencies", "forall(lambda k: implies(k in dsk.keys() and isdata(k), node_deps(dsk[k]) == EMPTY), Key)"),
+    ("dsk-denote-data", "forall(lambda k: implies(k in dsk.keys() and isdata(k), denote(k) == node_value(dsk[k])), Key)"),
+    ("dsk-acyclic", "forall(lambda k, d: implies(k in dsk.keys() and d in node_deps(dsk[k]), rank(d) < rank(k) and rank(d) >= 0), Key, Key)"),
+    ("keys-in-graph", "keys <= dsk.keys()"),
+]
+
+_DEPS = "(EMPTY if isdata(k) else node_deps(dsk[k]))"
+SS_INV = [
+    ("seen-in-graph", "seen <= dsk.keys() and forall(lambda j: implies(0 <= j and j < len(stack), stack[j] in dsk.keys())) and len(stack) >= 0"),
+    ("doms", "dependencies.keys() == seen and dependents.keys() == waiting_data.keys() and seen <= dependents.keys()"),
+    ("touched-are-pending", "forall(lambda d: implies(d in dependents.keys(), d in seen or d in stack), Key)"),
+    ("dependencies", f"forall(lambda k: implies(k in seen, dependencies[k] == {_DEPS}), Key)"),
+    ("dependents", "forall(lambda d, k: implies(d in dependents.keys(), (k in dependents[d]) == (k in seen and not isdata(k) and d in node_deps(dsk[k]))), Key, Key)"),
+    ("waiting-data", "forall(lambda d, k: implies(d in waiting_data.keys(), (k in waiting_data[d]) == (k in seen and not isdata(k) and d in node_deps(dsk[k]))), Key, Key)"),
+    ("cache-dom", "forall(lambda k: (k in cache.keys()) == (k in seen and isdata(k)), Key)"),
+    ("cache-val", "forall(lambda k: implies(k in cache.keys(), cache[k] == denote(k)), Key)"),
+    ("waiting-dom", "forall(lambda k: (k in waiting.keys()) == (k in seen and not isdata(k) and exists(lambda d: d in node_deps(dsk[k]) and d not in cache.keys(), Key)), Key)"),
+    ("waiting-val", "forall(lambda k, d: implies(k in waiting.keys(), (d in waiting[k]) == (d in node_deps(dsk[k]) and d not in cache.keys())), Key, Key)"),
+    ("ready", "forall(lambda k: (k in ready_set) == (k in seen and not isdata(k) and forall(lambda d: implies(d in node_deps(dsk[k]), d in cache.keys()), Key)), Key)"),
+    ("deps-touched", "forall(lambda k, d: implies(k in seen and not isdata(k) and d in node_deps(dsk[k]), d in dependents.keys()), Key, Key)"),
+    ("deps-pending", "forall(lambda k, d: implies(k in seen and not isdata(k) and d in node_deps(dsk[k]), d in seen or d in stack), Key, Key)"),
+    ("requested-pending", "forall(lambda k: implies(k in keys, k in seen or k in stack), Key)"),
+    ("needed", "forall(lambda d: implies(d in dependents.keys() and d not in keys, dependents[d] != EMPTY), Key)"),
+    ("pending-are-touched-or-requested", "forall(lambda j: implies(0 <= j and j < len(stack), stack[j] in keys or stack[j] in dependents.keys()))"),
+]
+
 start_state = Contract(
-    MODULE, "start_state_from_dask", assumed=True,
+    MODULE, "start_state_from_dask",
     params={"dsk": T.Map(Key, Node), "cache": T.Opt(Cache), "sortkey": Fn, "keys": SetK},
+    locals={"stack": T.Seq(Key), "dependencies": MapKS, "dependents": MapKS, "waiting": MapKS, "waiting_data": MapKS, "ready_set": SetK,
+            "seen": SetK, "task": T.Opt(Node), "_wait": SetK, "ready": T.Seq(Key), "state": StateT, "key": Key},
     returns=StateT,
-    requires=[("cache-empty", "cache is None")],
+    requires=[("cache-empty", "cache is None")] + DSK,
     ensures=[(l, c.replace("state", "result").replace("results", "keys")) for l, c in WF("state", "EMPTY") + GRAPH] + [
         ("fresh", 'result["running"] == EMPTY and result["finished"] == EMPTY and result["released"] == EMPTY'),
+        ("C02-exactly-the-needed-keys", 'keys <= result["dependencies"].keys() and forall(lambda k, d: implies(k in result["dependencies"].keys() and d in result["dependencies"][k], d in result["dependencies"].keys()), Key, Key)'),
     ],
-    raises=[("ValueError", "missing_dependency(dsk, keys)", "missing-dependency")],
-    note="ASSUMED in this module; verified separately (start_state_from_dask contract below when built)",
+    raises=[("ValueError", "False", "missing-dependency: unreachable for a closed graph")],
+    loops={
+        0: dict(invariant=SS_INV),
+        1: dict(done="DD", invariant=[  # DataNode branch: fix up dependents that were processed before this data node
+            ("frame", "same(dependencies, dependencies0) and same(dependents, dependents0) and same(waiting_data, waiting_data0) and same(cache, cache0) and same(seen, seen0) and same(stack, stack0)"),
+            ("waiting-dom", "forall(lambda k: (k in waiting.keys()) == (k in waiting0.keys() and not (k in DD and waiting0[k] == {key})), Key)"),
+            ("waiting-val", "forall(lambda k, d: implies(k in waiting.keys(), (d in waiting[k]) == (d in waiting0[k] and not (k in DD and d == key))), Key, Key)"),
+            ("ready", "forall(lambda k: (k in ready_set) == (k in ready0 or (k in DD and (k not in waiting0.keys() or waiting0[k] == {key}))), Key)"),
+        ]),
+        2: dict(done="DT", invariant=[  # task branch: record the edges of `key`
+            ("frame", "same(waiting, waiting1) and same(cache, cache0) and same(seen, seen0) and same(ready_set, ready1)"),
+            ("dependencies", "forall(lambda k: implies(k in dependencies.keys() and k != key, dependencies[k] == dependencies0[k]), Key) and dependencies.keys() == dependencies0.keys() and dependencies[key] == DT"),
+            ("dependents-dom", "forall(lambda d: (d in dependents.keys()) == (d in dependents0.keys() or d in DT), Key) and dependents.keys() == waiting_data.keys()"),
+            ("dependents", "forall(lambda d, k: implies(d in dependents.keys(), (k in dependents[d]) == ((d in dependents0.keys() and k in dependents0[d]) or (k == key and d in DT))), Key, Key)"),
+            ("waiting-data", "forall(lambda d, k: implies(d in waiting_data.keys(), (k in waiting_data[d]) == ((d in waiting_data0.keys() and k in waiting_data0[d]) or (k == key and d in DT))), Key, Key)"),
+            ("stack", "len(stack) >= len(stack0) and forall(lambda j: implies(0 <= j and j < len(stack0), stack[j] == stack0[j])) and forall(lambda j: implies(len(stack0) <= j and j < len(stack), stack[j] in DT)) and forall(lambda d: implies(d in DT, d in stack), Key)"),
+        ]),
+    },
+    ghost=[
+        ("before", "stack = list(keys)", "cache = EMPTYCACHE"),
+        ("before", "for d in dependents[key]", "dependencies0 = dependencies\ndependents0 = dependents\nwaiting_data0 = waiting_data\ncache0 = cache\nseen0 = seen\nstack0 = stack\nwaiting0 = waiting\nready0 = ready_set"),
+        ("before", "for dep in task.dependencies", "dependencies0 = dependencies\ndependents0 = dependents\nwaiting_data0 = waiting_data\ncache0 = cache\nseen0 = seen\nstack0 = stack\nwaiting1 = waiting\nready1 = ready_set"),
+    ],
+    drop=["if sortkey is None", "if cache is None", "if keys is None", "dsk = convert_legacy_graph("],
+    note="dropped: defaulting of sortkey/cache/keys (get_async always passes them; cache=None is the precondition) and the second convert_legacy_graph (identity on task-spec graphs, C08)",
 )
+for _n in ("dependencies0", "dependents0", "waiting_data0", "waiting0", "waiting1"):
+    start_state.locals[_n] = MapKS
+for _n in ("seen0", "ready0", "ready1"):
+    start_state.locals[_n] = SetK
+start_state.locals["cache0"] = Cache
+start_state.locals["stack0"] = T.Seq(Key)
 
 queue_result = Contract(
     MODULE, "queue_get_result", assumed=True,
@@ -293,7 +359,7 @@ get_async = Contract(
         ("chunksize", "chunksize is None or chunksize >= 1 or chunksize == -1 or chunksize == 0"),
         ("cache-empty", "cache is None"),
         ("no-local-rerun", "rerun_exceptions_locally is not None and not rerun_exceptions_locally"),
-    ],
+    ] + [(l, c.replace("keys <=", "leaves(result) <=")) for l, c in DSK],
     ensures=[
         ("C01-value", 'result == packv(old(result), state["cache"])'),
         ("C01-values-are-denotations", 'forall(lambda k: implies(k in leaves(old(result)), k in state["cache"].keys() and state["cache"][k] == denote(k)), Key)'),
@@ -358,6 +424,16 @@ CONTRACTS = [release_data, finish_task, submit, fire_tasks, no_deadlock, start_s
 
 def setup(eng):
     eng.consts["EMPTY"] = SV(SetK.empty(), SetK)
+    eng.consts["EMPTYCACHE"] = SV(Cache.mk(SetK.empty(), z3.K(Key.sort(), z3.Const("dflt_Val", Val.sort()))), Cache)
+    eng.funcs["node_deps"] = FuncVal("node_deps", "uf", (node_deps, SetK, [Node]))
+    eng.funcs["node_isdata"] = FuncVal("node_isdata", "uf", (node_isdata, T.Bool, [Node]))
+    eng.funcs["node_value"] = FuncVal("node_value", "uf", (node_value, Val, [Node]))
+    eng.isinstance_dynamic[("Node", "DataNode")] = lambda sv: node_isdata(sv.t)
+    eng.attr_models[("attr", "Node", "dependencies")] = lambda eng_, st, base, node: SV(node_deps(base.t), SetK)
+    eng.attr_models[("attr", "Opt<Node>", "dependencies")] = lambda eng_, st, base, node: SV(node_deps(base.ty.val(base.t)), SetK)
+    eng.callable_sorts["Opt<Node>"] = lambda eng_, st, fv, node, want: SV(node_value(fv.ty.val(fv.t)), Val)
+    eng.funcs["defaultdict"] = FuncVal("defaultdict", "model", lambda e, st, node, want: e.bi_dict(ast_call_dict(), st, want))
+    eng.defaultdicts = {("dependencies", ()), ("dependents", ()), ("waiting", ()), ("waiting_data", ())}
     eng.consts["STATE0"] = SV(z3.Const("STATE0", StateT.sort()), StateT)  # stands for the `{}` placeholder
     eng.spec_types["Key"] = Key
     eng.funcs["isdata"] = FuncVal("isdata", "uf", (isdata, T.Bool, [Key]))
@@ -457,6 +533,11 @@ def cm_enter(eng, st, ce):
 
 def cm_exit(eng, st, kind):
     pass
+
+
+def ast_call_dict():
+    import ast
+    return ast.Call(func=ast.Name(id="dict", ctx=ast.Load()), args=[], keywords=[])
 
 
 def call_task(eng, st, fv, node, want):
